@@ -5,6 +5,7 @@
 -/
 import VerdeModel.Gen.Kernels
 import VerdeModel.Gen.Coords
+import VerdeModel.Model.Windows
 import VerdeModel.Gen.Trend
 import VerdeModel.Gen.Utils
 open Verde
@@ -106,6 +107,20 @@ def coords2 : IO Unit := do
           let m := gridLines [w, e, s, n] ⟨sh, sp, (if adj = "spacing" then .spacing else if adj = "region" then .region else .bad), px⟩
           let g := Gen.gridLines w e s n (sh.map fun p => ((p.1 : Int), (p.2 : Int))) sp adj px
           IO.println s!"gridLines {ratS w} {ratS e} {ratS s} {ratS n} {shS sh} {spS sp} {adj} {px} | {gl g} | {gl m}"
+  let qS := fun (o : Option (Rat × Rat × Rat × Rat)) => match o with | none => "none" | some (a, b, c, d) => s!"{ratS a},{ratS b},{ratS c},{ratS d}"
+  let lS := fun (l : List Rat) => if l.isEmpty then "-" else ",".intercalate (l.map ratS)
+  let adjM := fun (adj : String) => if adj = "spacing" then Adjust.spacing else if adj = "region" then Adjust.region else Adjust.bad
+  for (es, ns) in [([(0 : Rat), 10, 3, 7/2, 9], [(-5 : Rat), 1, 0, -2, 1/2]), ([1, 1, 1], [2, 3, 4]), ([], []), ([1/10, 7/10, 2/5], [1/10, 23/10, 1])] do
+    for reg in [(none : Option (Rat × Rat × Rat × Rat)), some (0, 10, -5, 1), some (-1, 12, -6, 6), some (1, 0, 0, 1)] do
+      for adj in ["spacing", "region"] do
+        for (sh, sp) in [((none : Option (Nat × Nat)), (some [2] : Option (List Rat))), (none, some [5/2, 3]), (some (2, 3), none), (none, none), (some (1, 1), some [1])] do
+          let bm := (blockRegion es ns ⟨reg.map fun q => [q.1, q.2.1, q.2.2.1, q.2.2.2], sh, sp, adjM adj⟩).bind fun rg => gridLines rg ⟨sh, sp, adjM adj, true⟩
+          let bg := Gen.blockLines es ns sp adj reg (sh.map fun p => ((p.1 : Int), (p.2 : Int)))
+          IO.println s!"blockLines {lS es} {lS ns} {qS reg} {shS sh} {spS sp} {adj} | {gl bg} | {gl bm}"
+          for size in [(1 : Rat), 3, 6, 10, 11] do
+            let rm := (rollingWindow es ns size ⟨reg.map fun q => [q.1, q.2.1, q.2.2.1, q.2.2.2], sh, sp, adjM adj⟩).map fun o => (o.east, o.north)
+            let rg := Gen.rollingCentres es ns size sp (sh.map fun p => ((p.1 : Int), (p.2 : Int))) reg adj
+            IO.println s!"rollingCentres {lS es} {lS ns} {ratS size} {qS reg} {shS sh} {spS sp} {adj} | {gl rg} | {gl rm}"
   for (nn, ne) in [((2 : Nat), (2 : Nat)), (3, 5), (7, 2), (14, 11), (2, 9)] do
     for px in [false, true] do
       for r in [(⟨0, 10, -5, 1⟩ : Region), ⟨-1/2, 21/2, -11/2, 3/2⟩, ⟨3, 3, 1, 4⟩] do
